@@ -303,7 +303,7 @@ def gen_xrange(rng, xs, nparams, valid=True):
         if lo > hi:
             continue
         nsel = sum(1 for x in xs if lo <= x < hi)
-        if not valid or nsel >= nparams + 2:
+        if not valid or nsel >= nparams + 1:
             return [lo, hi]
     return None
 
@@ -312,7 +312,7 @@ def gen_poly_case(rng, malformed=False):
     model = rng.choice(POLY_MODELS + ("polynomial",))
     deg = {"linear": 1, "quadratic": 2}.get(model) or rng.choice([1, 2, 3, 3, 4, 5])
     npar = deg + 1
-    k = rng.randrange(1, 6)
+    k = rng.randrange(0, 6)            # n = p + 1 (one degree of freedom) is the smallest fit numpy accepts with cov=True
     use_range = rng.random() < 0.45
     n = npar + 1 + k + (rng.randrange(1, 5) if use_range else 0)
     n = min(n, 14)
@@ -418,6 +418,43 @@ def convert_numbers(case, values):
     return out[0] if scalar else out
 
 
+def minimal_family():
+    """a small deterministic family that every run covers before the random stream: each model with exactly p + 1 and
+    p + 2 points (p parameters), without and with per-point y-uncertainties"""
+    xgrid = [0.0, 1.0, -1.0, 2.0, -2.0, 3.0, -3.0, 0.5, -1.5]
+    wiggle = [0.5, -0.75, 0.25, 1.0, -0.5, 0.75, -1.0, 0.375, -0.625]
+    sig = [0.5, 1.0, 0.25, 2.0, 0.75, 1.5, 0.375, 1.25, 0.625]
+    out = []
+    for deg in (1, 2, 3, 4):
+        for model in ((["linear"] if deg == 1 else ["quadratic"] if deg == 2 else []) + ["polynomial"]):
+            for extra in (1, 2):
+                n = deg + 1 + extra
+                truth = [0.25, -0.5, 1.0, -1.5, 2.0][:deg + 1]
+                for weighted in (False, True):
+                    xs = xgrid[:n]
+                    ys = [peval(truth, x) + 2 * wiggle[i] for i, x in enumerate(xs)]
+                    c = {"kind": "poly", "model": model, "deg": deg, "designator": "str", "degrees_kw": True, "xs": xs, "ys": ys,
+                         "xerr": None, "yerr": sig[:n] if weighted else None, "xrange": None, "mode": "lists",
+                         "family": "minimal"}
+                    if well_posed_poly(c):
+                        out.append(c)
+    truths = {"userquad": [1.5, -2.0], "exponential": [4.0, 0.5], "gaussian": [6.0, 0.5, 1.25], "u_linear": [1.5, 2.5],
+              "u_quadratic": [0.75, -2.0], "u_polynomial": [1.0, -0.5, 0.25], "u_exponential": [0.5, 4.0],
+              "u_gaussian": [0.5, 1.25, 6.0], "u_model4": [1.0, 2.0, -0.75, 0.25]}
+    for model, truth in truths.items():
+        for extra in (1, 2):
+            n = len(truth) + extra
+            xs = [x + 2.0 for x in xgrid[:n]] if "exponential" in model else xgrid[:n]
+            scale = max(abs(ref_model(model, truth, x)) for x in xs)
+            for weighted in (False, True):
+                ys = [ref_model(model, truth, x) + 0.02 * scale * wiggle[i] for i, x in enumerate(xs)]
+                out.append({"kind": "curve", "model": model, "truth": truth, "guess": [t * 1.04 for t in truth], "noise_free": False,
+                            "as_lambda": False, "xs": xs, "ys": ys, "xerr": None,
+                            "yerr": [0.05 * scale * e for e in sig[:n]] if weighted else None, "xrange": None, "mode": "lists",
+                            "family": "minimal"})
+    return out
+
+
 def well_posed_poly(case):
     """reject data that the polynomial fits (almost) exactly: the covariance would be rounding noise"""
     pts = [p for p in points(case) if in_range_ref(case, p[0])]
@@ -503,7 +540,7 @@ def gen_curve_case(rng, noise_free=False, model=None, yscale=None):
         if any(abs(ref_slope(model, truth, x)) < 0.05 * scale for x in xs):
             case["yerr"] = scale / 16.0
     if rng.random() < 0.25 and n >= nparams_of(case) + 4:
-        case["xrange"] = gen_xrange(rng, xs, nparams_of(case) + 1)
+        case["xrange"] = gen_xrange(rng, xs, nparams_of(case) + 2)   # curve fits keep two spare points inside the range (the optimiser is an oracle)
     add_dimensions(rng, case)
     if case["mode"] == "plot_fit" and case["xrange"] is not None:
         case["mode"] = "dataset_kw"
@@ -865,7 +902,7 @@ def gen_history(rng, curve=None):
             other = dict(reqs[0])
             r = rng.random()
             if r < 0.5 or curve:
-                other["xrange"] = gen_xrange(rng, base["xs"], npar) if base["xrange"] is None else None
+                other["xrange"] = gen_xrange(rng, base["xs"], npar + 1 if curve else npar) if base["xrange"] is None else None
             elif r < 0.75:
                 other.update(model="polynomial", deg=(base["deg"] % 3) + 1, degrees_kw=True)
                 other.pop("parnames", None)
